@@ -105,7 +105,7 @@ FIDELITY = dict(sub="fidelity", mode="fidelity", family="fidelity", shards=q(4, 
 
 
 def c07(prop, tier, res, replay=None):
-    return pure.check_cases(prop, tier, res, [FIDELITY, LIMITS, DRUN], [
+    return pure.check_cases(prop, tier, res, [FIDELITY, LIMITS, DRUN, OPFRONT], [
         "push fidelity through the real PushDispatcher (micro-batches, concurrency 1-4): every send recorded by the scripted deliverer must carry exactly the headers and the payload the message was stored with",
         "payload identity through the store is exercised, not proved: the SQLite BLOB / JSON string-map round trip is the storage engine's (trusted base); what is proved is the base64 round trip for every byte string and the header copy rules",
         "requests are handed to the real ingress handler as http.Request values: net/http's own wire parsing of headers (canonicalisation, token validation) is trusted; header names are HTTP tokens, values arbitrary UTF-8",
@@ -137,7 +137,8 @@ PUBLISH = dict(sub="publish", mode="publish", family="publish", shards=q(4, 16),
 
 
 def c15(prop, tier, res, replay=None):
-    return pure.check_cases(prop, tier, res, [PUBLISH], [
+    return pure.check_cases(prop, tier, res, [PUBLISH, OPFRONT], [
+        "publishes are also entered through the other front ends (MCP tools on a SQLite file and in admin-proxy mode over TCP, Admin API on memory and SQLite, global and endpoint-scoped paths) and judged item by item against what was published (driver mode opfront)",
         "modelled: the global direct path POST /messages/publish (three validation passes + one EnqueueBatch against the queue model, with the implementation's eviction choice) and the endpoint-scoped path (Model/PublishScoped: scoped switch, endpoint resolution, audit with actor policy, route policy, parse loop, selector hints, target, envelope, stored ids, one EnqueueBatch); both are compared step by step and judged by spec-level predicates that do not depend on the handler's check order",
         "not modelled (answer before the modelled path): global_publish_disabled, audit header policy, JSON decoding errors and body-size limit, management-model cross checks (SourceMismatch, fail-closed resolver), a LookupMessages error, the non-batch fallback loop for stores without EnqueueBatch (every shipped store has it)",
         "configurations are generated as text through the real parser/compiler/runtime wiring (publish_policy, route publish flags, managed labels, max_body/max_headers); stores are the real memory and SQLite stores with small max_depth (reject and drop_oldest), pre-filled; timestamps are RFC 3339 within 1000 s of the clock; strings.TrimSpace is modelled on the white-space set {SP,\\t,\\n,\\v,\\f,\\r,U+0085,U+00A0} (generated ids/targets use only those)"], replay)
